@@ -73,11 +73,32 @@ func loadProgram(patches ...sym.SourcePatch) (*sym.Program, error) {
 		return nil, err
 	}
 	p, err := sym.Load(repoDir, ov)
+	// A harness file that reaches into unexported representation may stop compiling when the
+	// repository is refactored. Drop exactly the harness files the errors name and try again:
+	// their jobs are reported as inconclusive ("harness not found"), the others still run.
+	for try := 0; err != nil && try < 3; try++ {
+		dropped := false
+		for path := range ov {
+			base := filepath.Base(path)
+			if strings.HasPrefix(base, "zz_verif_") && strings.Contains(err.Error(), path+":") {
+				delete(ov, path)
+				droppedHarness = append(droppedHarness, strings.TrimPrefix(base, "zz_verif_"))
+				dropped = true
+			}
+		}
+		if !dropped {
+			break
+		}
+		p, err = sym.Load(repoDir, ov)
+	}
 	if err == nil {
 		p.Patches = patches
 	}
 	return p, err
 }
+
+// droppedHarness: harness files left out because they no longer compile against the tree.
+var droppedHarness []string
 
 func cmdRun(args []string) {
 	t0 := time.Now()
@@ -321,6 +342,9 @@ func cmdCheck(args []string) int {
 		return finish(2)
 	}
 	loadS := time.Since(t0).Seconds()
+	for _, f := range droppedHarness {
+		inconclusive = append(inconclusive, "harness file "+f+" no longer compiles against the tree and was left out (its jobs are not run)")
+	}
 	known, knownByID := readKnown(id)
 
 	jobs := prop.Jobs(tier)
@@ -744,7 +768,17 @@ func replayViolation(runner *sym.NativeRunner, prog *sym.Program, v *sym.Violati
 	note := fmt.Sprintf("%s %q -> native outcome %q", v.Job, v.Label, o.Outcome)
 	switch v.Kind {
 	case "assert":
-		return o.Outcome == "assert:"+v.Label, note
+		if o.Outcome == "assert:"+v.Label {
+			return true, note
+		}
+		// the real code failed an EARLIER assertion of the same harness on these inputs (natively the
+		// first failing Assert ends the run): every harness assertion states the property, so the
+		// counterexample is confirmed - it is reported under the label that failed natively
+		if strings.HasPrefix(o.Outcome, "assert:") && !strings.Contains(o.Outcome, "NEGATIVE TWIN") && !strings.HasSuffix(o.Outcome, "…") {
+			v.Detail = strings.TrimSpace(v.Detail + " (native run failed the earlier assertion " + strconv.Quote(strings.TrimPrefix(o.Outcome, "assert:")) + " on the same inputs)")
+			return true, note
+		}
+		return false, note
 	case "panic":
 		return strings.HasPrefix(o.Outcome, "panic:"), note
 	case "deadlock":
